@@ -277,15 +277,13 @@ Proof.
   - rewrite firstn_length. lia.
 Qed.
 
-Lemma create_dyn data block : data <> [] -> (N.of_nat (length data) + 1 + block < 4294967296)%N ->
+Lemma create_dyn_size data block : data <> [] -> (N.of_nat (length data) < create_size data block)%N ->
   exists rest, create data block = dyn data rest.
 Proof.
   intros Hd Hb. unfold create. destruct data as [|d0 dr] eqn:Ed; [congruence|]. rewrite <- Ed in *.
   assert (Hl : 0 < length data) by (rewrite Ed; cbn; lia).
-  set (m := if (u32 (block + 1) <? u32 (N.of_nat (length data) + 1))%N then u32 (N.of_nat (length data) + 1 + block) else u32 (block + 1)).
-  assert (Hm : length data + 1 <= N.to_nat m).
-  { unfold m, u32. clear m. rewrite !N.mod_small by lia.
-    destruct (_ <? _)%N eqn:E; [apply N.ltb_lt in E | apply N.ltb_ge in E]; lia. }
+  set (m := create_size data block) in *.
+  assert (Hm : length data + 1 <= N.to_nat m) by lia.
   destruct (skipn (length data) (repeat junk (N.to_nat m))) as [|x W] eqn:EW.
   { apply (f_equal (@length N)) in EW. rewrite skipn_length, repeat_length in EW. cbn in EW. lia. }
   exists W.
@@ -296,6 +294,24 @@ Proof.
   - rewrite firstn_length, repeat_length. lia.
   - reflexivity.
 Qed.
+
+Lemma no_wrap_size data block : (N.of_nat (length data) + 1 + block < 4294967296)%N ->
+  (N.of_nat (length data) < create_size data block)%N.
+Proof.
+  intros Hb. unfold create_size, u32. rewrite !N.mod_small by lia.
+  destruct (_ <? _)%N eqn:E; [apply N.ltb_lt in E | apply N.ltb_ge in E]; lia.
+Qed.
+
+(* duplicate: create_real (.., len, len) *)
+Lemma create_size_self data : (N.of_nat (length data) + 1 < 4294967296)%N ->
+  (N.of_nat (length data) < create_size data (N.of_nat (length data)))%N.
+Proof.
+  intros Hb. unfold create_size. rewrite N.ltb_irrefl. unfold u32. rewrite N.mod_small by lia. lia.
+Qed.
+
+Lemma create_dyn data block : data <> [] -> (N.of_nat (length data) + 1 + block < 4294967296)%N ->
+  exists rest, create data block = dyn data rest.
+Proof. intros Hd Hb. apply create_dyn_size; [exact Hd | now apply no_wrap_size]. Qed.
 
 (* ---------------------------------------------------------------------------------------- *)
 (* the core operations on a well-formed dynamic buffer: result again well-formed, contents   *)
@@ -362,6 +378,21 @@ Proof.
   unfold ins in *. rewrite Ed in H1, H2 at 1. rewrite <- Ed in *.
   rewrite Hlen in *. rewrite N.ltb_irrefl in *. rewrite Nat2N.id, insert_spec_end in H1.
   cbn [fst snd] in *. rewrite Ed in H2 at 2. cbn [snd] in H2. split; [exact H1 | congruence].
+Qed.
+
+Lemma create_R_size data block : (N.of_nat (length data) < create_size data block)%N -> R (create data block) data.
+Proof.
+  intros H. destruct data as [|d0 dr] eqn:E; [left; auto|]. rewrite <- E in *.
+  destruct (create_dyn_size data block) as (rest & ->); [rewrite E; discriminate | exact H |]. right. now exists rest.
+Qed.
+
+(* whatever the arguments: if create does not return NULL the buffer is well-formed and holds data *)
+Lemma create_opt_R data block b : create_opt data block = Some b -> R b data.
+Proof.
+  unfold create_opt. destruct data as [|d0 dr] eqn:E.
+  - intros H. inversion H. left. auto.
+  - rewrite <- E. destruct (_ <=? _)%N eqn:El; [discriminate|]. intros H. inversion H.
+    apply create_R_size. now apply N.leb_gt.
 Qed.
 
 Lemma create_R data block : (N.of_nat (length data) + 1 + block < 4294967296)%N -> R (create data block) data.
@@ -576,10 +607,55 @@ Proof.
   unfold abs. rewrite Hst. cbn [spec_step]. rewrite mut_dynamic. reflexivity.
 Qed.
 
-Lemma refines_create b data block : op_ok (abs b) (OCreate data block) = true -> refines_step b (OCreate data block).
+(* the 32-bit size computation refuses exactly what the specification's limit says *)
+Lemma create_size_refused data block : data <> [] ->
+  (N.of_nat (length data) < 4294967296)%N -> (block < 4294967296)%N ->
+  (create_size data block <=? N.of_nat (length data))%N = create_refused (N.of_nat (length data)) block.
 Proof.
-  intros Hok. cbn [op_ok] in Hok. apply N.ltb_lt in Hok.
-  eapply refines_R; [reflexivity | reflexivity | now apply create_R | reflexivity].
+  intros Hd Hl Hb. assert (H0 : (0 < N.of_nat (length data))%N) by (destruct data; [congruence | cbn; lia]).
+  unfold create_refused, create_size, u32. set (n := N.of_nat (length data)) in *.
+  replace (0 <? n)%N with true by (symmetry; apply N.ltb_lt; exact H0). cbn [andb].
+  destruct (N.eq_dec block 4294967295) as [-> | Hb1].
+  { change ((4294967295 + 1) mod 4294967296)%N with 0%N.
+    replace (4294967295 <=? 4294967295)%N with true by reflexivity. rewrite orb_true_r. cbn [orb].
+    destruct (N.eq_dec n 4294967295) as [-> | Hn1]; [reflexivity|].
+    rewrite (N.mod_small (n + 1)) by lia. replace (0 <? n + 1)%N with true by (symmetry; apply N.ltb_lt; lia).
+    replace ((n + 1 + 4294967295) mod 4294967296)%N with n.
+    - apply N.leb_refl.
+    - replace (n + 1 + 4294967295)%N with (n + 1 * 4294967296)%N by lia. rewrite N.mod_add by lia. now rewrite N.mod_small. }
+  rewrite (N.mod_small (block + 1)) by lia.
+  replace (4294967295 <=? block)%N with false by (symmetry; apply N.leb_gt; lia). rewrite orb_false_r.
+  destruct (N.eq_dec n 4294967295) as [-> | Hn1].
+  { change ((4294967295 + 1) mod 4294967296)%N with 0%N. replace (block + 1 <? 0)%N with false by (symmetry; apply N.ltb_ge; lia).
+    replace (4294967295 <=? 4294967295)%N with true by reflexivity. cbn [orb]. apply N.leb_le. lia. }
+  rewrite (N.mod_small (n + 1)) by lia.
+  replace (4294967295 <=? n)%N with false by (symmetry; apply N.leb_gt; lia). cbn [orb].
+  replace (block + 1 <? n + 1)%N with (block <? n)%N.
+  2:{ destruct (block <? n)%N eqn:E; symmetry; [apply N.ltb_lt in E; apply N.ltb_lt | apply N.ltb_ge in E; apply N.ltb_ge]; lia. }
+  destruct (block <? n)%N eqn:E; cbn [andb]; [apply N.ltb_lt in E | apply N.ltb_ge in E].
+  - destruct (4294967296 <=? n + 1 + block)%N eqn:E2; [apply N.leb_le in E2 | apply N.leb_gt in E2].
+    + replace ((n + 1 + block) mod 4294967296)%N with (n + 1 + block - 4294967296)%N.
+      * apply N.leb_le. lia.
+      * replace (n + 1 + block)%N with ((n + 1 + block - 4294967296) + 1 * 4294967296)%N at 2 by lia.
+        rewrite N.mod_add by lia. rewrite N.mod_small; lia.
+    + rewrite N.mod_small by lia. apply N.leb_gt. lia.
+  - apply N.leb_gt. lia.
+Qed.
+
+Lemma refines_create b data block : Inv b -> op_ok (abs b) (OCreate data block) = true -> refines_step b (OCreate data block).
+Proof.
+  intros HI Hok. cbn [op_ok] in Hok. apply andb_true_iff in Hok. destruct Hok as (Hl & Hb).
+  apply N.ltb_lt in Hl. apply N.ltb_lt in Hb.
+  destruct (create_opt data block) as [b'|] eqn:Ec.
+  - assert (Hs : create_refused (N.of_nat (length data)) block = false).
+    { unfold create_opt in Ec. destruct data as [|d0 dr] eqn:E; [reflexivity|]. rewrite <- E in *.
+      rewrite <- create_size_refused by (auto; rewrite E; discriminate). now destruct (_ <=? _)%N. }
+    eapply refines_R; [cbn [step]; rewrite Ec; reflexivity | cbn [spec_step]; rewrite Hs; reflexivity
+                       | now apply (create_opt_R data block) | reflexivity].
+  - assert (Hs : create_refused (N.of_nat (length data)) block = true).
+    { unfold create_opt in Ec. destruct data as [|d0 dr] eqn:E; [discriminate|]. rewrite <- E in *.
+      rewrite <- create_size_refused by (auto; rewrite E; discriminate). now destruct (_ <=? _)%N. }
+    eapply refines_readonly; [exact HI | cbn [step]; rewrite Ec; reflexivity | cbn [spec_step]; now rewrite Hs].
 Qed.
 
 Lemma refines_sta_create b data : refines_step b (OStaCreate data).
@@ -592,8 +668,13 @@ Lemma refines_duplicate b : Inv b -> op_ok (abs b) ODuplicate = true -> refines_
 Proof.
   intros HI Hok. cbn [op_ok abs fst] in Hok. apply N.ltb_lt in Hok.
   pose proof (contents_length b (Inv_Wf b HI)) as Hl.
-  eapply refines_R; [reflexivity | reflexivity | | reflexivity].
-  unfold duplicate. apply create_R. cbn [abs fst]. lia.
+  assert (Hsz : (N.of_nat (length (contents b)) < create_size (contents b) (N.of_nat (blen b)))%N).
+  { rewrite <- Hl. apply create_size_self. lia. }
+  assert (Hd : duplicate_opt b = Some (duplicate b)).
+  { unfold duplicate_opt, duplicate, create_opt. destruct (contents b) eqn:E; [reflexivity|]. rewrite <- E in *.
+    now replace (_ <=? _)%N with false by (symmetry; apply N.leb_gt; exact Hsz). }
+  eapply refines_R; [cbn [step]; rewrite Hd; reflexivity | reflexivity | | reflexivity].
+  unfold duplicate. now apply create_R_size.
 Qed.
 
 Lemma refines_len b : Inv b -> refines_step b OLen.
@@ -1199,8 +1280,11 @@ Proof.
   rewrite IH1, Ha. f_equal. rewrite Hr. now destruct (spec_step (abs b) o).
 Qed.
 
-Lemma Inv_create data block : (N.of_nat (length data) + 1 + block < 4294967296)%N -> Inv (create data block).
-Proof. intros H. eapply R_Inv. now apply create_R. Qed.
+Lemma Inv_create data block b : create_opt data block = Some b -> Inv b /\ contents b = data /\ bstatic b = false.
+Proof.
+  intros H. pose proof (create_opt_R _ _ _ H) as HR. destruct (R_contents _ _ HR) as (Hc & Hs & _).
+  split; [eapply R_Inv; exact HR | auto].
+Qed.
 
 (* the invariant spelled out for a dynamic buffer with storage *)
 Lemma Inv_terminator b : Inv b -> bstatic b = false -> cells b <> [] ->
